@@ -386,6 +386,8 @@ def evaluate_ifdefs(text):
     starting_at = 0
     # A stack of booleans indicating whether we should keep text in the current block.
     keeping = [True]
+    # For each open block, whether the text around it is being kept.
+    enclosing = []  # type: List[bool]
     for mo in _ifdef_pattern.finditer(text):
         if keeping[-1]:
             ret.append(text[starting_at : mo.start()])
@@ -394,23 +396,20 @@ def evaluate_ifdefs(text):
         value = mo.group()
         if kind == "IFDEF":
             word = value.split()[-1]
-            if word == "HERA_PY":
-                keeping.append(True)
-            else:
-                keeping.append(False)
+            # A block nested inside a discarded block is discarded whatever its condition.
+            keeping.append(keeping[-1] and word == "HERA_PY")
+            enclosing.append(keeping[-2])
         elif kind == "IFNDEF":
             word = value.split()[-1]
-            if word != "HERA_PY":
-                keeping.append(True)
-            else:
-                keeping.append(False)
+            keeping.append(keeping[-1] and word != "HERA_PY")
+            enclosing.append(keeping[-2])
         elif kind == "ELSE" and len(keeping) > 1:
-            keeping[-1] = not keeping[-1]
+            keeping[-1] = enclosing[-1] and not keeping[-1]
         elif kind == "ENDIF" and len(keeping) > 1:
             keeping.pop()
+            enclosing.pop()
 
-        if keeping[-1]:
-            starting_at = mo.end()
+        starting_at = mo.end()
 
     ret.append(text[starting_at:])
     return "".join(ret)
